@@ -1,16 +1,766 @@
-//! Suite C17 (stub — replaced when the property's harness is built).
-#![allow(dead_code, unused_imports)]
+//! C17: what the drivers program for frequency, TX power and RX timeout, and what they report as
+//! RSSI/SNR — observed on the REAL drivers over a recording fake SPI bus.
+//!
+//! Relational requirements ("decoded power = clamp(request)", "timeout not shorter than requested",
+//! "within 1 dB") cannot be compared as strings, so ops of those kinds carry the implementation's
+//! observation as their LAST word (`obs`): the Lean driver answers `<model obs>|<spec>` where
+//! `<spec>` echoes `obs` iff `obs`, decoded with the datasheet formulas of `Spec/SemtechArith.lean`,
+//! satisfies the requirement, and `SPEC-VIOLATION` otherwise.  `eval` ignores the embedded `obs` and
+//! re-runs the real code, so a replay always shows the current implementation.
+#![allow(dead_code)]
+use crate::c15::fake::*;
+use crate::c15::{sx1272, sx1276, sx126x};
+use crate::c16::{BWS, SFS};
 use crate::util::*;
+use embedded_hal_async::spi::{ErrorType, Operation, SpiDevice};
+use lora_modulation::{Bandwidth, BaseBandModulationParams, CodingRate, SpreadingFactor};
+use lora_phy::mod_params::*;
+use lora_phy::mod_traits::{IrqState, RadioKind};
+use lora_phy::{DelayNs, LoRa, RxMode};
+use std::cell::RefCell;
+use std::rc::Rc;
 
-pub fn eval(_op: &str) -> String {
-    "bad-op".into()
+// ------------------------------------------------------------------------------------------------
+// allocation-free bus for the 10^9-case frequency sweep: keeps the last command and a register file
+pub struct Mini {
+    pub last: [u8; 8],
+    pub regs: [u8; 128],
+}
+pub struct MiniSpi(pub Rc<RefCell<Mini>>);
+impl ErrorType for MiniSpi {
+    type Error = NoErr;
+}
+impl SpiDevice<u8> for MiniSpi {
+    async fn transaction(&mut self, ops: &mut [Operation<'_, u8>]) -> Result<(), NoErr> {
+        let mut m = self.0.borrow_mut();
+        let mut k = 0usize;
+        let mut w = [0u8; 8];
+        for op in ops.iter() {
+            if let Operation::Write(b) = op {
+                for &x in b.iter() {
+                    if k < 8 {
+                        w[k] = x;
+                        k += 1;
+                    }
+                }
+            }
+        }
+        if k == 2 && w[0] & 0x80 != 0 {
+            m.regs[(w[0] & 0x7f) as usize] = w[1];
+        }
+        m.last = w;
+        Ok(())
+    }
 }
 
-pub fn expand(_op: &str) -> Vec<String> {
-    vec![]
+fn pll126_sweep(lo: u32, n: u32, f: &mut dyn FnMut(u32, Option<i64>)) {
+    let m = Rc::new(RefCell::new(Mini { last: [0; 8], regs: [0; 128] }));
+    let mut rk = lora_phy::sx126x::Sx126x::new(
+        MiniSpi(m.clone()),
+        FakeIv,
+        lora_phy::sx126x::Config { chip: lora_phy::sx126x::Sx1262, tcxo_ctrl: None, use_dcdc: false, rx_boost: false },
+    );
+    for i in 0..n {
+        let fr = lo.wrapping_add(i);
+        let r = std::panic::catch_unwind(std::panic::AssertUnwindSafe(|| block_on(rk.set_channel(fr)).is_ok()));
+        let v = match r {
+            Ok(true) => {
+                let b = m.borrow().last;
+                if b[0] == 0x86 {
+                    Some(((b[1] as i64) << 24) | ((b[2] as i64) << 16) | ((b[3] as i64) << 8) | b[4] as i64)
+                } else {
+                    Some(-1)
+                }
+            }
+            Ok(false) => Some(-2),
+            Err(_) => None,
+        };
+        f(fr, v);
+    }
 }
 
-pub fn run(_tier: &str, _seed: u64, dir: &str) {
-    let sink = Sink::new(dir);
-    sink.finish(dir, "stub", false, serde_json::json!({}));
+fn pll127_sweep(lo: u32, n: u32, f: &mut dyn FnMut(u32, Option<i64>)) {
+    let m = Rc::new(RefCell::new(Mini { last: [0; 8], regs: [0; 128] }));
+    let mut rk = lora_phy::sx127x::Sx127x::new(
+        MiniSpi(m.clone()),
+        FakeIv,
+        lora_phy::sx127x::Config { chip: lora_phy::sx127x::Sx1276, tcxo_used: false, tx_boost: false, rx_boost: false },
+    );
+    for i in 0..n {
+        let fr = lo.wrapping_add(i);
+        let r = std::panic::catch_unwind(std::panic::AssertUnwindSafe(|| block_on(rk.set_channel(fr)).is_ok()));
+        let v = match r {
+            Ok(true) => {
+                let b = m.borrow();
+                Some(((b.regs[6] as i64) << 16) | ((b.regs[7] as i64) << 8) | b.regs[8] as i64)
+            }
+            Ok(false) => Some(-2),
+            Err(_) => None,
+        };
+        f(fr, v);
+    }
+}
+
+fn show(v: Option<i64>) -> String {
+    match v {
+        Some(v) => v.to_string(),
+        None => "PANIC".into(),
+    }
+}
+
+// ------------------------------------------------------------------------------------------------
+// power amplifier
+fn mp(rf: u32) -> ModulationParams {
+    ModulationParams {
+        spreading_factor: SpreadingFactor::_7,
+        bandwidth: Bandwidth::_125KHz,
+        coding_rate: CodingRate::_4_5,
+        low_data_rate_optimize: 0,
+        frequency_in_hz: rf,
+    }
+}
+
+fn pa126_obs(variant: &str, req: i32, rf: Option<u32>) -> String {
+    let variant = variant.to_string();
+    guarded(move || {
+        let bus = Bus::new(Proto::Sx126x, 0x00);
+        let m = rf.map(mp);
+        let r = match variant.as_str() {
+            "sx1261" => block_on(sx126x(&bus, lora_phy::sx126x::Sx1261).set_tx_power_and_ramp_time(req, m.as_ref(), true)),
+            "sx1262" => block_on(sx126x(&bus, lora_phy::sx126x::Sx1262).set_tx_power_and_ramp_time(req, m.as_ref(), true)),
+            "stm32wl-lp" => block_on(sx126x(&bus, lora_phy::sx126x::Stm32wl { use_high_power_pa: false }).set_tx_power_and_ramp_time(req, m.as_ref(), true)),
+            "stm32wl-hp" => block_on(sx126x(&bus, lora_phy::sx126x::Stm32wl { use_high_power_pa: true }).set_tx_power_and_ramp_time(req, m.as_ref(), true)),
+            _ => return "bad-op".to_string(),
+        };
+        if r.is_err() {
+            return "ERR".into();
+        }
+        let b = bus.borrow();
+        match (b.last_cmd(0x95), b.last_cmd(0x8E)) {
+            (Some(pa), Some(tx)) if pa.len() == 5 && tx.len() == 3 => format!("{},{},{},{}", pa[1], pa[2], pa[3], tx[1] as i8),
+            _ => "not-programmed".into(),
+        }
+    })
+    .unwrap_or_else(|| "PANIC".into())
+}
+
+fn pa127_obs(chip: &str, boost: bool, req: i32) -> String {
+    let chip = chip.to_string();
+    guarded(move || {
+        let bus = Bus::new(Proto::Sx127x, 0x00);
+        let r = match chip.as_str() {
+            "sx1276" => block_on(sx1276(&bus, boost).set_tx_power_and_ramp_time(req, None, true)),
+            "sx1272" => block_on(sx1272(&bus, boost).set_tx_power_and_ramp_time(req, None, true)),
+            _ => return "bad-op".to_string(),
+        };
+        if r.is_err() {
+            return "ERR".into();
+        }
+        let b = bus.borrow();
+        let dac = if chip == "sx1276" { 0x4d } else { 0x5a };
+        let g = |a: u16| b.written(a).map(|v| v.to_string()).unwrap_or("-".into());
+        format!("{},{},{}", g(0x09), g(dac), g(0x0b))
+    })
+    .unwrap_or_else(|| "PANIC".into())
+}
+
+// ------------------------------------------------------------------------------------------------
+// symbol timeouts
+fn symb126_obs(n: u16) -> String {
+    guarded(move || {
+        let bus = Bus::new(Proto::Sx126x, 0x00);
+        let r = block_on(sx126x(&bus, lora_phy::sx126x::Sx1262).do_rx(RxMode::Single(n)));
+        if r.is_err() {
+            return "ERR".to_string();
+        }
+        let b = bus.borrow();
+        let cmd = b.last_cmd(0xA0).and_then(|c| c.get(1).copied());
+        let reg = b.written(0x0706);
+        format!("{},{}", cmd.map(|v| v.to_string()).unwrap_or("-".into()), reg.map(|v| v.to_string()).unwrap_or("-".into()))
+    })
+    .unwrap_or_else(|| "PANIC".into())
+}
+
+fn symb127_obs(chip: &str, n: u16, prior: u8) -> String {
+    let chip = chip.to_string();
+    guarded(move || {
+        let bus = Bus::new(Proto::Sx127x, prior);
+        let r = match chip.as_str() {
+            "sx1276" => block_on(sx1276(&bus, false).do_rx(RxMode::Single(n))),
+            "sx1272" => block_on(sx1272(&bus, false).do_rx(RxMode::Single(n))),
+            _ => return "bad-op".to_string(),
+        };
+        if r.is_err() {
+            return "ERR".into();
+        }
+        let b = bus.borrow();
+        let g = |a: u16| b.written(a).map(|v| v.to_string()).unwrap_or("-".into());
+        format!("{},{}", g(0x1e), g(0x1f))
+    })
+    .unwrap_or_else(|| "PANIC".into())
+}
+
+// ------------------------------------------------------------------------------------------------
+// LoRaWAN adapter: ms -> symbols, observed at the RadioKind boundary
+#[derive(Default)]
+pub struct Seen {
+    pub rx_mode_symbols: Option<u16>,
+}
+pub struct SpyRadio(pub Rc<RefCell<Seen>>);
+impl RadioKind for SpyRadio {
+    async fn init_lora(&mut self, _s: u16) -> Result<(), RadioError> {
+        Ok(())
+    }
+    async fn set_lora_sync_word(&mut self, _s: u16) -> Result<(), RadioError> {
+        Ok(())
+    }
+    fn create_modulation_params(&self, sf: SpreadingFactor, bw: Bandwidth, cr: CodingRate, f: u32) -> Result<ModulationParams, RadioError> {
+        Ok(ModulationParams { spreading_factor: sf, bandwidth: bw, coding_rate: cr, low_data_rate_optimize: 0, frequency_in_hz: f })
+    }
+    fn create_packet_params(&self, p: u16, ih: bool, len: u8, crc: bool, iq: bool, _m: &ModulationParams) -> Result<PacketParams, RadioError> {
+        Ok(PacketParams { preamble_length: p, implicit_header: ih, payload_length: len, crc_on: crc, iq_inverted: iq })
+    }
+    async fn reset(&mut self, _d: &mut impl DelayNs) -> Result<(), RadioError> {
+        Ok(())
+    }
+    async fn ensure_ready(&mut self, _m: RadioMode) -> Result<(), RadioError> {
+        Ok(())
+    }
+    async fn set_standby(&mut self) -> Result<(), RadioError> {
+        Ok(())
+    }
+    async fn set_sleep(&mut self, _w: bool, _d: &mut impl DelayNs) -> Result<(), RadioError> {
+        Ok(())
+    }
+    async fn set_tx_rx_buffer_base_address(&mut self, _t: usize, _r: usize) -> Result<(), RadioError> {
+        Ok(())
+    }
+    async fn set_tx_power_and_ramp_time(&mut self, _p: i32, _m: Option<&ModulationParams>, _t: bool) -> Result<(), RadioError> {
+        Ok(())
+    }
+    async fn set_modulation_params(&mut self, _m: &ModulationParams) -> Result<(), RadioError> {
+        Ok(())
+    }
+    async fn set_packet_params(&mut self, _p: &PacketParams) -> Result<(), RadioError> {
+        Ok(())
+    }
+    async fn calibrate_image(&mut self, _f: u32) -> Result<(), RadioError> {
+        Ok(())
+    }
+    async fn set_channel(&mut self, _f: u32) -> Result<(), RadioError> {
+        Ok(())
+    }
+    async fn set_payload(&mut self, _p: &[u8]) -> Result<(), RadioError> {
+        Ok(())
+    }
+    async fn do_tx(&mut self) -> Result<(), RadioError> {
+        Ok(())
+    }
+    async fn do_rx(&mut self, _m: RxMode) -> Result<(), RadioError> {
+        Ok(())
+    }
+    async fn get_rx_payload(&mut self, _p: &PacketParams, _b: &mut [u8]) -> Result<u8, RadioError> {
+        Ok(0)
+    }
+    async fn get_rx_packet_status(&mut self) -> Result<PacketStatus, RadioError> {
+        Ok(PacketStatus { rssi: 0, snr: 0 })
+    }
+    async fn get_rssi(&mut self) -> Result<i16, RadioError> {
+        Ok(0)
+    }
+    async fn do_cad(&mut self, _m: &ModulationParams) -> Result<(), RadioError> {
+        Ok(())
+    }
+    async fn set_irq_params(&mut self, m: Option<RadioMode>) -> Result<(), RadioError> {
+        if let Some(RadioMode::Receive(RxMode::Single(n))) = m {
+            self.0.borrow_mut().rx_mode_symbols = Some(n);
+        }
+        Ok(())
+    }
+    async fn set_tx_continuous_wave_mode(&mut self) -> Result<(), RadioError> {
+        Ok(())
+    }
+    async fn await_irq(&mut self) -> Result<(), RadioError> {
+        Ok(())
+    }
+    async fn process_irq_event(&mut self, _m: RadioMode, _c: Option<&mut bool>, _cl: bool) -> Result<Option<IrqState>, RadioError> {
+        Ok(None)
+    }
+    async fn get_irq_state(&mut self, _m: RadioMode, _c: Option<&mut bool>) -> Result<Option<IrqState>, RadioError> {
+        Ok(None)
+    }
+    async fn clear_irq_status(&mut self) -> Result<(), RadioError> {
+        Ok(())
+    }
+}
+
+fn rxsym_obs(sf: SpreadingFactor, bw: Bandwidth, ms: u32) -> String {
+    use lorawan_device::async_device::radio::{PhyRxTx, RfConfig, RxConfig, RxMode as LwRxMode};
+    guarded(move || {
+        let seen = Rc::new(RefCell::new(Seen::default()));
+        let lora = match block_on(LoRa::new(SpyRadio(seen.clone()), true, NoDelay)) {
+            Ok(l) => l,
+            Err(_) => return "ERR".to_string(),
+        };
+        let mut radio: lora_phy::lorawan_radio::LorawanRadio<_, _, 14> = lora.into();
+        let cfg = RxConfig {
+            rf: RfConfig { frequency: 868_100_000, bb: BaseBandModulationParams::new(sf, bw, CodingRate::_4_5), max_payload_len: 255 },
+            mode: LwRxMode::Single { ms },
+        };
+        if block_on(radio.setup_rx(cfg)).is_err() {
+            return "ERR".into();
+        }
+        let n = seen.borrow().rx_mode_symbols;
+        match n {
+            Some(n) => n.to_string(),
+            None => "not-single".into(),
+        }
+    })
+    .unwrap_or_else(|| "PANIC".into())
+}
+
+// ------------------------------------------------------------------------------------------------
+// packet status
+fn pkt126(b0: u8, b1: u8, b2: u8) -> Option<(i64, i64)> {
+    guarded(move || {
+        let bus = Bus::new(Proto::Sx126x, 0x00);
+        bus.borrow_mut().status_payload = vec![b0, b1, b2];
+        let r = block_on(sx126x(&bus, lora_phy::sx126x::Sx1262).get_rx_packet_status());
+        r.ok().map(|s| (s.rssi as i64, s.snr as i64))
+    })
+    .flatten()
+}
+
+fn pkt126_obs(b0: u8, b1: u8, b2: u8) -> String {
+    match pkt126(b0, b1, b2) {
+        Some((r, s)) => format!("{},{}", r, s),
+        None => "PANIC".into(),
+    }
+}
+
+fn rssi126_obs(b0: u8) -> String {
+    guarded(move || {
+        let bus = Bus::new(Proto::Sx126x, 0x00);
+        bus.borrow_mut().status_payload = vec![b0];
+        match block_on(sx126x(&bus, lora_phy::sx126x::Sx1262).get_rssi()) {
+            Ok(v) => v.to_string(),
+            Err(_) => "ERR".into(),
+        }
+    })
+    .unwrap_or_else(|| "PANIC".into())
+}
+
+fn bus127(frf: u32, snr: u8, rssi: u8, inst: u8) -> Rc<RefCell<Bus>> {
+    let bus = Bus::new(Proto::Sx127x, 0x00);
+    {
+        let mut b = bus.borrow_mut();
+        b.regs.insert(0x06, (frf >> 16) as u8);
+        b.regs.insert(0x07, (frf >> 8) as u8);
+        b.regs.insert(0x08, frf as u8);
+        b.regs.insert(0x19, snr);
+        b.regs.insert(0x1a, rssi);
+        b.regs.insert(0x1b, inst);
+    }
+    bus
+}
+
+fn pkt127(chip: &str, snr: u8, rssi: u8, frf: u32) -> Option<(i64, i64)> {
+    let chip = chip.to_string();
+    guarded(move || {
+        let bus = bus127(frf, snr, rssi, 0);
+        let r = if chip == "sx1276" { block_on(sx1276(&bus, false).get_rx_packet_status()) } else { block_on(sx1272(&bus, false).get_rx_packet_status()) };
+        r.ok().map(|s| (s.rssi as i64, s.snr as i64))
+    })
+    .flatten()
+}
+
+fn pkt127_obs(chip: &str, snr: u8, rssi: u8, frf: u32) -> String {
+    match pkt127(chip, snr, rssi, frf) {
+        Some((r, s)) => format!("{},{}", r, s),
+        None => "PANIC".into(),
+    }
+}
+
+fn rssi127_obs(chip: &str, raw: u8, frf: u32) -> String {
+    let chip = chip.to_string();
+    guarded(move || {
+        let bus = bus127(frf, 0, 0, raw);
+        let r = if chip == "sx1276" { block_on(sx1276(&bus, false).get_rssi()) } else { block_on(sx1272(&bus, false).get_rssi()) };
+        match r {
+            Ok(v) => v.to_string(),
+            Err(_) => "ERR".into(),
+        }
+    })
+    .unwrap_or_else(|| "PANIC".into())
+}
+
+fn pack2(v: Option<(i64, i64)>) -> Option<i64> {
+    v.map(|(r, s)| r * 65536 + s)
+}
+
+// ------------------------------------------------------------------------------------------------
+fn sf_of(n: &str) -> Option<SpreadingFactor> {
+    SFS.iter().copied().find(|s| s.factor().to_string() == n)
+}
+fn bw_of(n: &str) -> Option<Bandwidth> {
+    BWS.iter().copied().find(|s| s.hz().to_string() == n)
+}
+
+/// Evaluate one op line on the real code. For obs-carrying ops the trailing `obs` word is ignored.
+pub fn eval(op: &str) -> String {
+    let w: Vec<&str> = op.split_whitespace().collect();
+    match w.as_slice() {
+        ["C17", "pll126", f] => {
+            let Ok(f) = f.parse::<u32>() else { return "bad-op".into() };
+            let mut out = None;
+            pll126_sweep(f, 1, &mut |_, v| out = v);
+            show(out)
+        }
+        ["C17", "pll127", f] => {
+            let Ok(f) = f.parse::<u32>() else { return "bad-op".into() };
+            let mut out = None;
+            pll127_sweep(f, 1, &mut |_, v| out = v);
+            show(out)
+        }
+        ["C17", "pll126_digest", lo, n] | ["C17", "pll127_digest", lo, n] => {
+            let (Ok(lo), Ok(n)) = (lo.parse::<u32>(), n.parse::<u32>()) else { return "bad-op".into() };
+            let mut h = Fnv::new();
+            if w[1] == "pll126_digest" {
+                pll126_sweep(lo, n, &mut |_, v| h.opt(v));
+            } else {
+                pll127_sweep(lo, n, &mut |_, v| h.opt(v));
+            }
+            format!("{:016x}", h.0)
+        }
+        ["C17", "pa126", variant, req, rf, ..] => {
+            let Ok(req) = req.parse::<i32>() else { return "bad-op".into() };
+            let rf = rf.parse::<u32>().ok();
+            pa126_obs(variant, req, rf)
+        }
+        ["C17", "pa127", chip, boost, req, ..] => {
+            let (Ok(req), Ok(boost)) = (req.parse::<i32>(), boost.parse::<u8>()) else { return "bad-op".into() };
+            pa127_obs(chip, boost != 0, req)
+        }
+        ["C17", "symb126", n, ..] => {
+            let Ok(n) = n.parse::<u16>() else { return "bad-op".into() };
+            symb126_obs(n)
+        }
+        ["C17", "symb127", chip, n, prior, ..] => {
+            let (Ok(n), Ok(prior)) = (n.parse::<u16>(), prior.parse::<u8>()) else { return "bad-op".into() };
+            symb127_obs(chip, n, prior)
+        }
+        ["C17", "rxsym", sf, bw, ms, ..] => {
+            let (Some(sf), Some(bw), Ok(ms)) = (sf_of(sf), bw_of(bw), ms.parse::<u32>()) else { return "bad-op".into() };
+            rxsym_obs(sf, bw, ms)
+        }
+        ["C17", "pkt126", b0, b1, b2, ..] => {
+            let (Ok(b0), Ok(b1), Ok(b2)) = (b0.parse::<u8>(), b1.parse::<u8>(), b2.parse::<u8>()) else { return "bad-op".into() };
+            pkt126_obs(b0, b1, b2)
+        }
+        ["C17", "pkt126_digest", b0] => {
+            let Ok(b0) = b0.parse::<u8>() else { return "bad-op".into() };
+            let mut h = Fnv::new();
+            for b1 in 0..=255u8 {
+                for b2 in 0..=255u8 {
+                    h.opt(pack2(pkt126(b0, b1, b2)));
+                }
+            }
+            format!("{:016x}", h.0)
+        }
+        ["C17", "rssi126", b0, ..] => {
+            let Ok(b0) = b0.parse::<u8>() else { return "bad-op".into() };
+            rssi126_obs(b0)
+        }
+        ["C17", "pkt127", chip, snr, rssi, frf, ..] => {
+            let (Ok(snr), Ok(rssi), Ok(frf)) = (snr.parse::<u8>(), rssi.parse::<u8>(), frf.parse::<u32>()) else { return "bad-op".into() };
+            pkt127_obs(chip, snr, rssi, frf)
+        }
+        ["C17", "pkt127_digest", chip, frf] => {
+            let Ok(frf) = frf.parse::<u32>() else { return "bad-op".into() };
+            let mut h = Fnv::new();
+            for snr in 0..=255u8 {
+                for rssi in 0..=255u8 {
+                    h.opt(pack2(pkt127(chip, snr, rssi, frf)));
+                }
+            }
+            format!("{:016x}", h.0)
+        }
+        ["C17", "rssi127", chip, raw, frf, ..] => {
+            let (Ok(raw), Ok(frf)) = (raw.parse::<u8>(), frf.parse::<u32>()) else { return "bad-op".into() };
+            rssi127_obs(chip, raw, frf)
+        }
+        _ => "bad-op".into(),
+    }
+}
+
+/// op line with the implementation's observation appended
+fn with_obs(op: String) -> (String, String) {
+    let a = eval(&op);
+    (format!("{} {}", op, a), a)
+}
+
+pub fn expand(op: &str) -> Vec<String> {
+    let w: Vec<&str> = op.split_whitespace().collect();
+    let mut out = vec![];
+    match w.as_slice() {
+        ["C17", "pll126_digest", lo, n] | ["C17", "pll127_digest", lo, n] => {
+            if let (Ok(lo), Ok(n)) = (lo.parse::<u32>(), n.parse::<u32>()) {
+                let name = if w[1] == "pll126_digest" { "pll126" } else { "pll127" };
+                for i in 0..n {
+                    out.push(format!("C17 {} {}", name, lo.wrapping_add(i)));
+                }
+            }
+        }
+        ["C17", "pkt126_digest", b0] => {
+            for b1 in 0..=255u32 {
+                for b2 in 0..=255u32 {
+                    out.push(with_obs(format!("C17 pkt126 {} {} {}", b0, b1, b2)).0);
+                }
+            }
+        }
+        ["C17", "pkt127_digest", chip, frf] => {
+            for snr in 0..=255u32 {
+                for rssi in 0..=255u32 {
+                    out.push(with_obs(format!("C17 pkt127 {} {} {} {}", chip, snr, rssi, frf)).0);
+                }
+            }
+        }
+        // obs-carrying ops: re-issue the op with the CURRENT implementation's observation (used by
+        // `check --replay`, so that a stale embedded observation does not outlive a fix)
+        ["C17", kind, rest @ ..] => {
+            let nargs = match *kind {
+                "pa126" => 3,
+                "pa127" => 3,
+                "symb126" => 1,
+                "symb127" => 3,
+                "rxsym" => 3,
+                "pkt126" => 3,
+                "rssi126" => 1,
+                "pkt127" => 4,
+                "rssi127" => 3,
+                _ => 0,
+            };
+            if nargs > 0 && rest.len() >= nargs {
+                let base = format!("C17 {} {}", kind, rest[..nargs].join(" "));
+                out.push(with_obs(base).0);
+            }
+        }
+        _ => {}
+    }
+    out
+}
+
+/// every LoRaWAN channel centre frequency of the regional plans the stack ships (RP002), in Hz
+pub fn lorawan_channels() -> Vec<u32> {
+    let mut v: Vec<u32> = vec![];
+    // EU868 (+ common CFList channels), EU433, IN865, KR920, AS923 groups, RU864
+    v.extend([868_100_000, 868_300_000, 868_500_000, 867_100_000, 867_300_000, 867_500_000, 867_700_000, 867_900_000, 869_525_000, 868_800_000]);
+    v.extend([433_175_000, 433_375_000, 433_575_000, 434_665_000]);
+    v.extend([865_062_500, 865_402_500, 865_985_000, 866_550_000]);
+    v.extend([922_100_000, 922_300_000, 922_500_000, 921_900_000]);
+    v.extend([923_200_000, 923_400_000, 921_400_000, 921_600_000, 916_600_000, 916_800_000, 917_300_000, 917_500_000]);
+    v.extend([868_900_000, 869_100_000]);
+    // US915 / AU915: 64 x 125 kHz + 8 x 500 kHz uplink, 8 x 500 kHz downlink
+    for k in 0..64 {
+        v.push(902_300_000 + 200_000 * k);
+        v.push(915_200_000 + 200_000 * k);
+    }
+    for k in 0..8 {
+        v.push(903_000_000 + 1_600_000 * k);
+        v.push(915_900_000 + 1_600_000 * k);
+        v.push(923_300_000 + 600_000 * k);
+    }
+    // CN470: 96 uplink + 48 downlink
+    for k in 0..96 {
+        v.push(470_300_000 + 200_000 * k);
+    }
+    for k in 0..48 {
+        v.push(500_300_000 + 200_000 * k);
+    }
+    v.sort();
+    v.dedup();
+    v
+}
+
+fn par_eval(ops: &[String]) -> Vec<String> {
+    let n = std::thread::available_parallelism().map(|n| n.get()).unwrap_or(4).min(16);
+    let mut res: Vec<String> = vec![String::new(); ops.len()];
+    let chunk = (ops.len() + n - 1) / n.max(1);
+    if chunk == 0 {
+        return res;
+    }
+    std::thread::scope(|s| {
+        for (os, rs) in ops.chunks(chunk).zip(res.chunks_mut(chunk)) {
+            s.spawn(move || {
+                for (o, r) in os.iter().zip(rs.iter_mut()) {
+                    *r = eval(o);
+                }
+            });
+        }
+    });
+    res
+}
+
+pub fn run(tier: &str, seed: u64, dir: &str) {
+    let thorough = tier == "thorough";
+    let mut rng = Rng::new(seed);
+    let mut sink = Sink::new(dir);
+
+    // ---- 1. synthesiser word: LoRaWAN channels, band edges, a stride over 137..1020 MHz, seeded points
+    let mut fs: Vec<u32> = lorawan_channels();
+    fs.extend([137_000_000, 137_000_001, 175_000_000, 410_000_000, 525_000_000, 779_000_000, 862_000_000, 1_019_999_999, 1_020_000_000]);
+    let stride = if thorough { 997 } else { 9973 };
+    let mut f = 137_000_000u32 + (rng.below(stride as u64) as u32);
+    while f <= 1_020_000_000 {
+        fs.push(f);
+        f += stride;
+    }
+    for _ in 0..5000 {
+        fs.push(rng.range(137_000_000, 1_020_000_000) as u32);
+    }
+    // outside the chips' range (model and implementation must still agree; no spec there)
+    for _ in 0..2000 {
+        fs.push(rng.next() as u32);
+    }
+    fs.extend([0, 1, 15_624, 15_625, 4_095_999_999, 4_096_000_000, u32::MAX]);
+    let chans = lorawan_channels();
+    for &f in &fs {
+        for name in ["pll126", "pll127"] {
+            let op = format!("C17 {} {}", name, f);
+            let class = if chans.contains(&f) {
+                format!("{}-lorawan-channel", name)
+            } else if (137_000_000..=1_020_000_000).contains(&f) {
+                format!("{}-in-range", name)
+            } else {
+                format!("{}-out-of-range", name)
+            };
+            sink.case(&op, &eval(&op), &class, true);
+        }
+    }
+    // digest blocks of 10^6 consecutive frequencies: all 883 blocks of 137..1020 MHz in thorough
+    let mut dops: Vec<String> = vec![];
+    if thorough {
+        for k in 0..883u32 {
+            dops.push(format!("C17 pll126_digest {} 1000000", 137_000_000 + k * 1_000_000));
+            dops.push(format!("C17 pll127_digest {} 1000000", 137_000_000 + k * 1_000_000));
+        }
+        dops.push("C17 pll126_digest 1020000000 1".into());
+        dops.push("C17 pll127_digest 1020000000 1".into());
+    } else {
+        for lo in [868_000_000u32, 137_000_000 + (rng.below(882) as u32) * 1_000_000] {
+            dops.push(format!("C17 pll126_digest {} 1000000", lo));
+            dops.push(format!("C17 pll127_digest {} 1000000", lo));
+        }
+    }
+    let dres = par_eval(&dops);
+    for (op, a) in dops.iter().zip(dres.iter()) {
+        let n: u64 = op.split_whitespace().nth(3).unwrap().parse().unwrap();
+        sink.case_w(op, a, if op.contains("126") { "pll126-digest-block" } else { "pll127-digest-block" }, true, n);
+    }
+
+    // ---- 2. TX power: every request -200..200 and the i32 extremes x variant x channel knowledge
+    let mut reqs: Vec<i32> = (-200..=200).collect();
+    reqs.extend([i32::MIN, i32::MIN + 1, -32769, -32768, -129, -128, 127, 128, 255, 256, 32767, 32768, i32::MAX - 1, i32::MAX]);
+    for _ in 0..200 {
+        reqs.push(rng.next() as i32);
+    }
+    let rfs: [Option<u32>; 6] = [None, Some(169_400_000), Some(399_999_999), Some(400_000_000), Some(868_100_000), Some(915_000_000)];
+    for variant in ["sx1261", "sx1262", "stm32wl-lp", "stm32wl-hp"] {
+        for rf in rfs {
+            for &req in &reqs {
+                let (op, a) = with_obs(format!("C17 pa126 {} {} {}", variant, req, rf.map(|f| f.to_string()).unwrap_or("-".into())));
+                let class = if a == "ERR" { format!("pa-{}-refused", variant) } else { format!("pa-{}", variant) };
+                sink.case(&op, &a, &class, true);
+            }
+        }
+    }
+    for chip in ["sx1276", "sx1272"] {
+        for boost in [0, 1] {
+            for &req in &reqs {
+                let (op, a) = with_obs(format!("C17 pa127 {} {} {}", chip, boost, req));
+                sink.case(&op, &a, &format!("pa-{}-{}", chip, if boost == 1 { "boost" } else { "rfo" }), true);
+            }
+        }
+    }
+
+    // ---- 3. symbol timeouts: all 65 536 requests
+    for n in 0..=65535u32 {
+        let (op, a) = with_obs(format!("C17 symb126 {}", n));
+        sink.case(&op, &a, if n <= 248 { "symb126-in-range" } else { "symb126-clamped" }, n <= 260 || n % 257 == 0);
+    }
+    for chip in ["sx1276", "sx1272"] {
+        for n in 0..=65535u32 {
+            let prior = match n % 3 {
+                0 => 0u8,
+                1 => 0xff,
+                _ => rng.next() as u8,
+            };
+            let (op, a) = with_obs(format!("C17 symb127 {} {} {}", chip, n, prior));
+            sink.case(&op, &a, if n <= 1023 { "symb127-in-range" } else { "symb127-clamped" }, n <= 1030 || n % 257 == 0);
+        }
+    }
+
+    // ---- 4. LoRaWAN adapter: every (sf,bw) x margin 0..1000 ms (all in thorough, every 7th + edges in quick), some larger
+    for sf in SFS {
+        for bw in BWS {
+            let mut mss: Vec<u32> = if thorough { (0..=1000).collect() } else { (0..=1000).filter(|m| m % 7 == 0 || *m < 60 || *m > 990).collect() };
+            mss.extend([1500, 2000, 4000]);
+            for ms in mss {
+                let (op, a) = with_obs(format!("C17 rxsym {} {} {}", sf.factor(), bw.hz(), ms));
+                sink.case(&op, &a, "rxsym", true);
+            }
+        }
+    }
+
+    // ---- 5. packet status
+    for b0 in 0..=255u32 {
+        let (op, a) = with_obs(format!("C17 rssi126 {}", b0));
+        sink.case(&op, &a, "rssi126", true);
+        for b1 in 0..=255u32 {
+            let b2 = rng.next() as u8;
+            let (op, a) = with_obs(format!("C17 pkt126 {} {} {}", b0, b1, b2));
+            sink.case(&op, &a, "pkt126", true);
+        }
+    }
+    // Frf words: 868.1 MHz (HF), 433.05 MHz (LF), and the two words around the 525 MHz port threshold
+    let frfs: [u32; 5] = [14_222_950, 7_095_091, 8_601_600, 8_601_601, 8_601_599];
+    for chip in ["sx1276", "sx1272"] {
+        for &frf in &frfs {
+            for raw in 0..=255u32 {
+                let (op, a) = with_obs(format!("C17 rssi127 {} {} {}", chip, raw, frf));
+                sink.case(&op, &a, "rssi127", true);
+            }
+        }
+        for snr in 0..=255u32 {
+            for rssi in 0..=255u32 {
+                let frf = frfs[((snr + rssi) % 2) as usize];
+                let (op, a) = with_obs(format!("C17 pkt127 {} {} {} {}", chip, snr, rssi, frf));
+                sink.case(&op, &a, if snr >= 128 { "pkt127-negative-snr" } else { "pkt127-positive-snr" }, true);
+            }
+        }
+    }
+    let mut pops: Vec<String> = vec![];
+    for chip in ["sx1276", "sx1272"] {
+        for &frf in &frfs {
+            pops.push(format!("C17 pkt127_digest {} {}", chip, frf));
+        }
+    }
+    if thorough {
+        for b0 in 0..=255u32 {
+            pops.push(format!("C17 pkt126_digest {}", b0));
+        }
+    } else {
+        pops.push(format!("C17 pkt126_digest {}", rng.below(256)));
+    }
+    let pres = par_eval(&pops);
+    for (op, a) in pops.iter().zip(pres.iter()) {
+        sink.case_w(op, a, if op.contains("126") { "pkt126-digest-block" } else { "pkt127-digest-block" }, true, 65536);
+    }
+
+    sink.finish(
+        dir,
+        "Real drivers over a recording fake SPI bus. pll: set_channel on SX1262/SX1276 for every LoRaWAN channel of the shipped regional plans, band edges, a stride over 137..1020 MHz, seeded in- and out-of-range u32 values, and digest blocks of 10^6 consecutive frequencies (thorough: all 883 blocks = every Hz of 137..1020 MHz, both chips). pa: requests -200..200, i32 extremes and seeded i32 values x {SX1261, SX1262, STM32WL LP/HP} x channel {unknown, 169.4, 399.999999, 400, 868.1, 915 MHz}, and x {SX1276, SX1272} x {RFO, PA_BOOST}. symb: all 65 536 symbol counts on SX126x and on both SX127x (prior RegModemConfig2 0x00/0xff/random). rxsym: LorawanRadio::setup_rx through a spy RadioKind for all 80 (sf,bw) x margins 0..1000 ms (every 7th + edges in quick) + 1500/2000/4000. pkt/rssi: SX126x all (b0,b1) with seeded b2 individually + digest blocks over all (b1,b2) per b0 (thorough: all 2^24 triples); SX127x all 2^16 (snr,rssi) individually per chip and as digests for 5 Frf words around the HF/LF threshold. Distinct = distinct op lines; non-trivial = every case except the clamped tail of the timeout sweeps (n far above the chip maximum, where the answer is constant), of which every 257th counts.",
+        thorough,
+        serde_json::json!({"lorawan_channels": chans.len()}),
+    );
 }
